@@ -868,6 +868,10 @@ class Interp:
             return GenericVisit(x)
         if isinstance(x, (In, Copy)):
             return Visit(x)
+        if isinstance(x, (Visit, GenericVisit)):
+            # something that was already visited is visited again (an already rewritten tree put back into a node that is then visited): the slot occurs once
+            # more -- the slot-linearity rules count it
+            return Visit(x)
         raise Unsupported(f"visit of {x!r}")
 
     def make_node(self, cls, args, kwargs, e):
